@@ -2577,17 +2577,34 @@ class DiskObjectStore(PackBasedObjectStore):
         except FileNotFoundError:
             pass
 
-        for p in self.packs:
-            bin_prefix = (
-                binascii.unhexlify(prefix)
-                if len(prefix) % 2 == 0
-                else binascii.unhexlify(prefix[:-1])
-            )
-            for bin_sha in p.index.iter_prefix(bin_prefix):
-                sha = sha_to_hex(bin_sha)
-                if sha.startswith(prefix) and sha not in seen:
-                    seen.add(sha)
-                    yield sha
+        bin_prefix = (
+            binascii.unhexlify(prefix)
+            if len(prefix) % 2 == 0
+            else binascii.unhexlify(prefix[:-1])
+        )
+        # A concurrent repack may remove the packs known so far and move
+        # what they, or the loose files listed above, held into new ones:
+        # keep rescanning until no pack is left that has not been asked.
+        listed: set[str] = set()
+        while True:
+            self._update_pack_cache()
+            pending = [
+                (name, pack)
+                for name, pack in self._pack_cache.items()
+                if name not in listed
+            ]
+            if not pending:
+                break
+            for name, p in pending:
+                listed.add(name)
+                try:
+                    for bin_sha in p.index.iter_prefix(bin_prefix):
+                        sha = sha_to_hex(bin_sha)
+                        if sha.startswith(prefix) and sha not in seen:
+                            seen.add(sha)
+                            yield sha
+                except PackFileDisappeared as exc:
+                    self._evict_pack(exc.obj)
         for alternate in self.alternates:
             for sha in alternate.iter_prefix(prefix):
                 if sha not in seen:
